@@ -91,6 +91,35 @@ theorem load_depends_on_survivors_only (eng : Engine E) (hE : EngineReset eng) (
     rw [load_result_eq_fresh eng hE w' db, ← hs]; exact h1.2
   rw [h1.1, (load_resets_wrapper eng hE w' db h0').1, hs]
 
+/-! ### the same with a weaker engine hypothesis: reset up to an indistinguishability relation
+
+`EngineReset` (unload = fresh, as an equation) is more than the code provides: scratch members keep their old value.
+What the code is meant to provide is that unload reaches the fresh engine *up to* a relation R that no operation can tell
+apart (`Respects`).  The theorems below need only that. -/
+
+/-- after a load that returns 0 the instance is indistinguishable from a fresh one given the same survivors -/
+theorem load_resets_wrapper_upto (eng : Engine E) (R : E → E → Prop) (hEq : Equivalence R) (hR : Respects eng R)
+    (hU : EngineResetUpTo eng R) (w : W E) (db : String) (h0 : (load eng w db).2 = 0) :
+    Rel R (load eng w db).1 (load eng (freshWith eng (survivors w)) db).1 ∧
+    (load eng (freshWith eng (survivors w)) db).2 = 0 :=
+  load_rel_fresh eng R hEq hR hU w db h0
+
+/-- `load_then_calls_eq_fresh` for every history and every later call sequence, under `EngineResetUpTo R` -/
+theorem load_then_calls_eq_fresh_upto (eng : Engine E) (R : E → E → Prop) (hEq : Equivalence R) (hR : Respects eng R)
+    (hU : EngineResetUpTo eng R) (i : Nat) (hist later : List Op) (db : String)
+    (h0 : (load eng (runOps eng (create eng i) hist) db).2 = 0) :
+    trace eng (load eng (runOps eng (create eng i) hist) db).1 later =
+    trace eng (load eng (freshWith eng (survivors (runOps eng (create eng i) hist))) db).1 later :=
+  Reset.load_then_calls_eq_fresh_upto eng R hEq hR hU i hist later db h0
+
+/-- related instances stay related under every call and return the same codes (the simulation the two theorems rest on) -/
+theorem calls_preserve_relation (eng : Engine E) (R : E → E → Prop) (hR : Respects eng R) (w1 w2 : W E) (op : Op)
+    (h : Rel R w1 w2) : Rel R (step eng w1 op) (step eng w2 op) ∧ result eng w1 op = result eng w2 op :=
+  step_rel eng R hR w1 w2 op h
+
+/-- the equation form is the special case R = equality -/
+theorem engineReset_is_upto_eq (eng : Engine E) : EngineReset eng ↔ EngineResetUpTo eng Eq := Iff.rfl
+
 /-! ### a concrete engine: non-vacuity and the witness that the premise "returns 0" is needed -/
 
 /-- toy engine: the state is the list of definitions read so far; a database containing "bad" has one input error;
@@ -175,6 +204,18 @@ def covered (i : Nat) : Bool :=
 def explainedBy (l : List Nat) (i : Nat) : Bool :=
   l.contains i || parentOf.any (fun p => p.1 == i && l.contains p.2)
 
+/-- the same as a bit mask: the members of `l` and the field paths of those members -/
+def explainedMask (l : List Nat) : Nat :=
+  parentOf.foldl (fun acc p => if (maskOf l).testBit p.2 then acc ||| (1 <<< p.1) else acc) (maskOf l)
+
+/-- the mask in Gen/Members is the mask of the four reviewed lists -/
+theorem dead_mask_ok :
+    deadMask = explainedMask scratchIds ||| explainedMask healedIds ||| explainedMask fileNamesIds ||| explainedMask knownUnreset := by
+  decide +kernel
+
+/-- listed (itself or as a whole member) in a reviewed list: its old value cannot reach a result -/
+def dead (i : Nat) : Bool := deadMask.testBit i
+
 /-- the translator recognised every code shape it relies on -/
 theorem translator_clean : translatorErrors = [] ∧ unknownResetCallees = [] := by decide
 
@@ -193,8 +234,7 @@ theorem readers_state_reset :
   decide +kernel
 
 /-- reset, or listed (itself or as a whole member) in one of the reviewed lists -/
-def accountedPath (i : Nat) : Bool :=
-  covered i || explainedBy scratchIds i || explainedBy healedIds i || explainedBy fileNamesIds i || explainedBy knownUnreset i
+def accountedPath (i : Nat) : Bool := covered i || dead i
 
 /-- a struct-typed member is also accounted for when every accessed field of it is -/
 def accounted (i : Nat) : Bool :=
@@ -228,7 +268,41 @@ theorem wrapper_survivors_untouched :
 theorem wrapper_percall_overwritten : ∀ p ∈ wrapperClass, p.2 = "percall" → p.1 ∈ wrapperPerCall := by
   decide +kernel
 
+/-! ### Part 1 and Part 2 joined: an engine whose state is a valuation of the numbered members -/
+
+/-- a struct-typed member that is only an aggregate of separately numbered field paths, all of them accounted for -/
+def aggregateOnly (i : Nat) : Bool :=
+  !covered i && parentOf.any (fun p => p.2 == i) && parentOf.all (fun p => p.2 != i || accountedPath p.1)
+
+/-- members whose value can reach a result -/
+def liveMember (i : Nat) : Bool := decide (i < memberCount) && !dead i && !aggregateOnly i
+
+theorem live_members_reset_in_range : ∀ i ∈ List.range memberCount, liveMember i = true → covered i = true := by
+  decide +kernel
+
+/-- every live member is put back by the load path (the content of `every_member_accounted`, in the form the model uses) -/
+theorem live_members_reset (i : Nat) (h : liveMember i = true) : covered i = true := by
+  by_cases hi : i < memberCount
+  · exact live_members_reset_in_range i (List.mem_range.mpr hi) h
+  · simp [liveMember, hi] at h
+
+/-- C07 for every engine whose state assigns a value to each member of class Phreeqc, whose unload is the reset path
+    *as extracted from the source* (`covered`), and whose operations cannot see the members listed as dead:
+    for every history and every later call sequence the observations after a successful load equal those of a fresh
+    instance.  The only engine hypothesis left is `Respects` — "scratch / healed members are not read before written". -/
+theorem c07_member_engine {V : Type} (eng : Engine (Nat → V))
+    (hunload : eng.unload = unloadTable eng.fresh (fun i => covered i))
+    (hR : Respects eng (Agree liveMember)) (i : Nat) (hist later : List Op) (db : String)
+    (h0 : (load eng (runOps eng (create eng i) hist) db).2 = 0) :
+    trace eng (load eng (runOps eng (create eng i) hist) db).1 later =
+    trace eng (load eng (freshWith eng (survivors (runOps eng (create eng i) hist))) db).1 later := by
+  apply Reset.load_then_calls_eq_fresh_upto eng (Agree liveMember) (agree_equivalence _) hR _ i hist later db h0
+  intro e
+  rw [hunload]
+  exact unloadTable_agrees eng.fresh (fun i => covered i) liveMember live_members_reset e
+
 -- non-vacuity of Part 2: the sets are large and the obligations bite
+example : (List.range memberCount).countP liveMember > 500 := by decide +kernel
 example : 500 < memberCount ∧ 150 < readerWritten.length ∧ 300 < initAssigned.length ∧ 50 < cleaned.length := by decide +kernel
 example : covered 0 = false := by decide +kernel      -- `phrq_io` is not reset (it is scratch by policy)
 
